@@ -224,6 +224,9 @@ impl From<HttpResponse> for crate::ResponseAsync {
     fn from(effect_response: HttpResponse) -> Self {
         let mut res = http_types::Response::new(effect_response.status);
         res.set_body(effect_response.body);
+        // `set_body` stamps the body's default mime type on the response; the headers of the
+        // response are the ones the shell reported and nothing else.
+        res.remove_header(http_types::headers::CONTENT_TYPE);
         for header in effect_response.headers {
             res.append_header(header.name.as_str(), header.value);
         }
